@@ -219,6 +219,9 @@ class MEDDLY::unary_operation : public operation {
 
 
         inline void compute(const dd_edge &arg, long &res) {
+            if (!arg.isAttachedTo(argF)) {
+                throw error(error::FOREST_MISMATCH, __FILE__, __LINE__);
+            }
             oper_item tmp(res);
             compute(argF->getMaxLevelIndex(), ~0,
                     arg.getEdgeValue(), arg.getNode(), tmp);
@@ -226,6 +229,9 @@ class MEDDLY::unary_operation : public operation {
         }
 
         inline void compute(const dd_edge &arg, double &res) {
+            if (!arg.isAttachedTo(argF)) {
+                throw error(error::FOREST_MISMATCH, __FILE__, __LINE__);
+            }
             oper_item tmp(res);
             compute(argF->getMaxLevelIndex(), ~0,
                     arg.getEdgeValue(), arg.getNode(), tmp);
@@ -234,6 +240,9 @@ class MEDDLY::unary_operation : public operation {
 
 #ifdef HAVE_LIBGMP
         inline void compute(const dd_edge &arg, mpz_ptr v) {
+            if (!arg.isAttachedTo(argF)) {
+                throw error(error::FOREST_MISMATCH, __FILE__, __LINE__);
+            }
             oper_item tmp(v);
             compute(argF->getMaxLevelIndex(), ~0,
                     arg.getEdgeValue(), arg.getNode(), tmp);
@@ -241,6 +250,9 @@ class MEDDLY::unary_operation : public operation {
 #endif
 
         inline void compute(const dd_edge &arg, oper_item &res) {
+            if (!arg.isAttachedTo(argF)) {
+                throw error(error::FOREST_MISMATCH, __FILE__, __LINE__);
+            }
             compute(argF->getMaxLevelIndex(), ~0,
                     arg.getEdgeValue(), arg.getNode(), res);
         }
